@@ -252,6 +252,10 @@ def run(tier):
             c.traces_validated += 1
         else:
             ev = json.loads(open(rt).read().splitlines()[at - 1])
+            if ev.get("op") == "OverDead":
+                c.report_failure("kv: a successful Put was lost when a read of the dead record it replaced ran at the same instant (in-memory)",
+                                 {"rejected_at_line": at, "event": ev})
+                return c.finish(rule="see DESIGN.md C02")
             c.report_failure("kv: a version was handed out twice (or a write failed) under sixteen concurrent writers (%s)" % ev.get("backend"),
                              {"rejected_at_line": at, "event": ev})
     return c.finish(rule="every recorded concurrent history (%d in-memory, %d Redis: 2-4 goroutines x 3-6 calls (read-CAS chains: "
